@@ -350,6 +350,15 @@ def r12_3_6(ctx, A):
                 rvx = once(rvx)
             sl = [x for x in walk(rvx) if (is_call(x, 'IndexMut<I>>::index_mut') or is_call(x, 'IndexMut<I> for [T]>::index_mut')) and x[2][1][0] == 'agg' and x[2][1][1].endswith('ops::Range')]
             if not sl:
+                # table.chunks_exact_mut(stride).nth(bucket): the bucket-th row of `stride` cells
+                ch = [x for x in walk(rvx) if is_call(x, '::nth') and len(x[2]) == 2 and any(is_call(y, '::chunks_exact_mut') or is_call(y, '::chunks_mut') or is_call(y, '::chunks_exact') for y in walk(x[2][0]))]
+                if ch:
+                    cx = [y for y in walk(ch[0][2][0]) if is_call(y, '::chunks_exact_mut') or is_call(y, '::chunks_mut') or is_call(y, '::chunks_exact')][0]
+                    sf = ('field', ('param', e.local_name(1), 1), stride_f)
+                    okc = norm(cx[2][1]) == norm(sf) and any(is_call(x, hs[0].path.rsplit('::', 1)[-1]) or (x[0] == 'call' and x[1] == hs[0].path) for x in walk(ch[0][2][1]))
+                    ctx.check(R6, okc, 'row-range', 'a row must be the bucket-th chunk of `stride` cells: chunk size %s, index %s' % (fmt(cx[2][1])[:40], fmt(ch[0][2][1])[:60]), fn=e)
+                elif p.ret()[0] == 'agg' and not p.ret()[1].endswith('::Rejected'):
+                    ctx.undecided(R6, 'row-range', 'the cells of a row are selected in a form the rule does not follow', fn=e)
                 continue
             rg = dict(sl[0][2][1][2])
             st, en = rg.get('start'), rg.get('end')
